@@ -157,6 +157,10 @@ func applyEdit(kind string, sdls []string, a, b, c int) {
 		sdls[a] = ensureNode(sdls[a]) + "interface Tagged {\n  id: ID!\n}\ntype Stub implements Node & Tagged {\n  id: ID!\n}\n"
 		sdls[a] = addRootField(sdls[a], "Query", "taggedThings: [Tagged]")
 		sdls[b] = ensureNode(sdls[b]) + "type Stub implements Node {\n  id: ID!\n  label: String\n  size: Int\n}\n"
+	case "neutralUnderscoreRootFields":
+		// a single leading underscore is an ordinary name (only two are reserved): the entry points of other federation schemes
+		sdls[a] = addRootField(addRootField(sdls[a], "Query", "_service: String"), "Query", "_entities(ids: [ID!]!): [String]")
+		sdls[b] = addRootField(sdls[b], "Query", "_info(x: Int): Int")
 	case "neutralEnumExtend":
 		sdls[a] += "enum Ext {\n  A\n  B\n}\n"
 		sdls[b] += "enum Ext {\n  B\n  C\n}\n"
@@ -166,7 +170,7 @@ func applyEdit(kind string, sdls []string, a, b, c int) {
 var conflictKinds = []string{"dupQueryField", "dupMutationField", "dupSubscriptionField", "kindObjectEnum", "kindScalarObject", "kindInputObject",
 	"kindInterfaceUnion", "nodeOneSide", "nodeFieldTwice", "nodeFieldTwicePartial", "partialObject", "partialObjectSubset", "partialInput", "partialInputSubset", "partialInterface", "partialInterfaceSubset", "idFieldType", "idInputFieldType", "idFieldArgs",
 	"fieldType", "fieldNullability", "fieldListWrapper", "fieldListElemNullability", "argListWrapper", "inputFieldListWrapper", "fieldArgs", "fieldArgType", "inputFieldType", "inputFieldDefault", "argDefault", "unionMembers", "unionMembersDisjoint"}
-var neutralKinds = []string{"neutralThreeWay", "neutralIdentical", "neutralDisjoint", "neutralEnumExtend", "neutralStubInterface"}
+var neutralKinds = []string{"neutralThreeWay", "neutralIdentical", "neutralDisjoint", "neutralEnumExtend", "neutralStubInterface", "neutralUnderscoreRootFields"}
 
 // conflictGate maps a conflict kind to the feature class used by known-finding gates.
 func conflictGate(kind string) string { return "merge." + kind }
